@@ -24,11 +24,14 @@ inductive Xml
   | el (tag : Str) (attrs : List (Str × Str)) (text : Option Str) (kids : List Xml)
   | raw (canon : Str)
 
-def sIDENTIFIER : Str := "IDENTIFIER".toList
-def sLASTCHANGE : Str := "LAST-CHANGE".toList
-def sLONGNAME : Str := "LONG-NAME".toList
-def sDESC : Str := "DESC".toList
-def sTHEVALUE : Str := "THE-VALUE".toList
+/-- tag and attribute names (kept behind a definition so that they stay readable in goals) -/
+def tg (s : String) : Str := s.toList
+
+def sIDENTIFIER : Str := (tg "IDENTIFIER")
+def sLASTCHANGE : Str := (tg "LAST-CHANGE")
+def sLONGNAME : Str := (tg "LONG-NAME")
+def sDESC : Str := (tg "DESC")
+def sTHEVALUE : Str := (tg "THE-VALUE")
 def sREF : Str := "-REF".toList
 
 /-- `element.set(name, value)` only `if value` -/
@@ -122,14 +125,14 @@ def header (e : Env) (md : Metadata) (m : Module) : HeaderEl :=
 /-- `THE-HEADER` / `REQ-IF-HEADER` (`IDENTIFIER = "_" + model.uuid.upper()`) with its six children in the
 order of the code's tuple -/
 def HeaderEl.toXml (h : HeaderEl) (modelUuid : Str) : Xml :=
-  wrapEl "THE-HEADER".toList
-    [.el "REQ-IF-HEADER".toList [(sIDENTIFIER, (Ident.obj modelUuid).render)] none
-      [textEl "COMMENT".toList h.comment,
-       textEl "CREATION-TIME".toList h.creationTime,
-       textEl "REQ-IF-TOOL-ID".toList h.toolId,
-       textEl "REQ-IF-VERSION".toList h.version,
-       textEl "SOURCE-TOOL-ID".toList h.sourceToolId,
-       textEl "TITLE".toList h.title]]
+  wrapEl (tg "THE-HEADER")
+    [.el (tg "REQ-IF-HEADER") [(sIDENTIFIER, (Ident.obj modelUuid).render)] none
+      [textEl (tg "COMMENT") h.comment,
+       textEl (tg "CREATION-TIME") h.creationTime,
+       textEl (tg "REQ-IF-TOOL-ID") h.toolId,
+       textEl (tg "REQ-IF-VERSION") h.version,
+       textEl (tg "SOURCE-TOOL-ID") h.sourceToolId,
+       textEl (tg "TITLE") h.title]]
 
 /-! ## datatypes -/
 
@@ -137,108 +140,108 @@ def HeaderEl.toXml (h : HeaderEl) (modelUuid : Str) : Xml :=
 `_build_datatypes` -/
 def datatypeConstants (key : DtKey) (k : Kind) : List (Str × Str) :=
   match key, k with
-  | .std _, .string => [("MAX-LENGTH".toList, "32000".toList)]
+  | .std _, .string => [(tg "MAX-LENGTH", "32000".toList)]
   | .std _, _ => []
-  | .custom _ _, .string => [("MAX-LENGTH".toList, "2147483647".toList)]
-  | .custom _ _, .real => [("ACCURACY".toList, "100".toList), ("MAX".toList, "Infinity".toList), ("MIN".toList, "-Infinity".toList)]
-  | .custom _ _, .integer => [("MAX".toList, "2147483647".toList), ("MIN".toList, "-2147483648".toList)]
+  | .custom _ _, .string => [(tg "MAX-LENGTH", "2147483647".toList)]
+  | .custom _ _, .real => [(tg "ACCURACY", "100".toList), (tg "MAX", "Infinity".toList), (tg "MIN", "-Infinity".toList)]
+  | .custom _ _, .integer => [(tg "MAX", "2147483647".toList), (tg "MIN", "-2147483648".toList)]
   | .custom _ _, _ => []
 
 def EnumValueEl.toXml (ts : Str) (v : EnumValueEl) : Xml :=
-  .el "ENUM-VALUE".toList
+  .el (tg "ENUM-VALUE")
     ([(sIDENTIFIER, (Ident.obj v.uuid).render), (sLASTCHANGE, ts)] ++ optAttr sLONGNAME v.longName ++ optAttr sDESC v.desc)
     none []
 
 def DatatypeEl.toXml (ts : Str) (d : DatatypeEl) : Xml :=
-  .el ("DATATYPE-DEFINITION-".toList ++ d.kind.name)
+  .el (tg "DATATYPE-DEFINITION-" ++ d.kind.name)
     ([(sIDENTIFIER, d.key.ident.render), (sLASTCHANGE, ts)] ++ optAttr sLONGNAME d.longName ++ datatypeConstants d.key d.kind)
     none
     (match d.values with
-     | some vs => [wrapEl "SPECIFIED-VALUES".toList (vs.map (EnumValueEl.toXml ts))]
+     | some vs => [wrapEl (tg "SPECIFIED-VALUES") (vs.map (EnumValueEl.toXml ts))]
      | none => [])
 
 /-! ## spec types -/
 
 /-- `TYPE` / `DATATYPE-DEFINITION-<T>-REF` -/
 def typeRef (k : Kind) (ref : Ident) : Xml :=
-  wrapEl "TYPE".toList [textEl ("DATATYPE-DEFINITION-".toList ++ k.name ++ sREF) ref.render]
+  wrapEl (tg "TYPE") [textEl (tg "DATATYPE-DEFINITION-" ++ k.name ++ sREF) ref.render]
 
 /-- a standard `ATTRIBUTE-DEFINITION-<T>` (of a spec object type or of the specification type) -/
 def stdAttrDefXml (ts : Str) (owner : Str → Ident) (x : Str × Kind) : Xml :=
-  .el ("ATTRIBUTE-DEFINITION-".toList ++ x.2.name)
+  .el (tg "ATTRIBUTE-DEFINITION-" ++ x.2.name)
     [(sIDENTIFIER, (owner x.1).render), (sLASTCHANGE, ts), (sLONGNAME, "ReqIF.".toList ++ x.1)]
     none [typeRef x.2 (.stdDatatype x.1)]
 
 def boolText (b : Bool) : Str := if b then "true".toList else "false".toList
 
 def AttrDefEl.toXml (ts : Str) (rt : Option Str) (a : AttrDefEl) : Xml :=
-  .el ("ATTRIBUTE-DEFINITION-".toList ++ a.kind.name)
+  .el (tg "ATTRIBUTE-DEFINITION-" ++ a.kind.name)
     ([(sIDENTIFIER, (a.ident rt).render), (sLASTCHANGE, ts)] ++ optAttr sLONGNAME a.longName ++ optAttr sDESC a.desc
-      ++ optAttr "MULTI-VALUED".toList (a.multiValued.map boolText))
+      ++ optAttr (tg "MULTI-VALUED") (a.multiValued.map boolText))
     none [typeRef a.kind a.dtRef]
 
 /-- `if len(attributes_wrap): elem.append(attributes_wrap)` -/
 def specAttributes (kids : List Xml) : List Xml :=
-  if kids = [] then [] else [wrapEl "SPEC-ATTRIBUTES".toList kids]
+  if kids = [] then [] else [wrapEl (tg "SPEC-ATTRIBUTES") kids]
 
 def SpecTypeEl.toXml (ts : Str) (t : SpecTypeEl) : Xml :=
-  .el "SPEC-OBJECT-TYPE".toList
+  .el (tg "SPEC-OBJECT-TYPE")
     ([(sIDENTIFIER, (sotIdent t.rt).render), (sLASTCHANGE, ts)] ++ optAttr sLONGNAME t.longName ++ optAttr sDESC t.desc)
     none
     (specAttributes (t.std.map (stdAttrDefXml ts (.stdAttr t.rt)) ++ t.custom.map (AttrDefEl.toXml ts t.rt)))
 
 def SpecificationTypeEl.toXml (ts : Str) (t : SpecificationTypeEl) : Xml :=
-  .el "SPECIFICATION-TYPE".toList
+  .el (tg "SPECIFICATION-TYPE")
     ([(sIDENTIFIER, (stIdent t.mt).render), (sLASTCHANGE, ts)] ++ optAttr sLONGNAME t.longName ++ optAttr sDESC t.desc)
     none
-    [wrapEl "SPEC-ATTRIBUTES".toList (t.std.map (stdAttrDefXml ts (.stdSpecAttr t.mt)))]
+    [wrapEl (tg "SPEC-ATTRIBUTES") (t.std.map (stdAttrDefXml ts (.stdSpecAttr t.mt)))]
 
 /-! ## spec objects -/
 
 /-- `DEFINITION` / `ATTRIBUTE-DEFINITION-<T>-REF` -/
 def definitionRef (k : Kind) (ref : Ident) : Xml :=
-  wrapEl "DEFINITION".toList [textEl ("ATTRIBUTE-DEFINITION-".toList ++ k.name ++ sREF) ref.render]
+  wrapEl (tg "DEFINITION") [textEl (tg "ATTRIBUTE-DEFINITION-" ++ k.name ++ sREF) ref.render]
 
 /-- a standard value: `THE-VALUE` attribute for `STRING`, `THE-VALUE` child with the converted tree for
 `XHTML` -/
 def StdValueEl.toXml (owner : Str → Ident) (v : StdValueEl) : Xml :=
   if v.kind = .xhtml then
-    .el ("ATTRIBUTE-VALUE-".toList ++ v.kind.name) [] none
+    .el (tg "ATTRIBUTE-VALUE-" ++ v.kind.name) [] none
       [definitionRef v.kind (owner v.name), wrapEl sTHEVALUE [.raw (v.theValue.getD [])]]
   else
-    .el ("ATTRIBUTE-VALUE-".toList ++ v.kind.name) [(sTHEVALUE, v.theValue.getD [])] none
+    .el (tg "ATTRIBUTE-VALUE-" ++ v.kind.name) [(sTHEVALUE, v.theValue.getD [])] none
       [definitionRef v.kind (owner v.name)]
 
 /-- `_build_attribute_value_simple` / `_build_attribute_value_enum` -/
 def AttrValueEl.toXml (rt : Option Str) (v : AttrValueEl) : Xml :=
   if v.kind = .enumeration then
-    .el ("ATTRIBUTE-VALUE-".toList ++ v.kind.name) [] none
+    .el (tg "ATTRIBUTE-VALUE-" ++ v.kind.name) [] none
       [definitionRef v.kind (.attrDef rt v.ad v.kind),
-       wrapEl "VALUES".toList (v.enumRefs.map fun u => textEl "ENUM-VALUE-REF".toList (Ident.obj u).render)]
+       wrapEl (tg "VALUES") (v.enumRefs.map fun u => textEl (tg "ENUM-VALUE-REF") (Ident.obj u).render)]
   else
-    .el ("ATTRIBUTE-VALUE-".toList ++ v.kind.name) (optAttr sTHEVALUE v.theValue) none
+    .el (tg "ATTRIBUTE-VALUE-" ++ v.kind.name) (optAttr sTHEVALUE v.theValue) none
       [definitionRef v.kind (.attrDef rt v.ad v.kind)]
 
 def SpecObjectEl.toXml (ts : Str) (o : SpecObjectEl) : Xml :=
-  .el "SPEC-OBJECT".toList
+  .el (tg "SPEC-OBJECT")
     ([(sIDENTIFIER, (Ident.obj o.uuid).render), (sLASTCHANGE, ts)] ++ optAttr sLONGNAME o.longName)
     none
-    [wrapEl "VALUES".toList (o.std.map (StdValueEl.toXml (.stdAttr o.rt)) ++ o.attrs.map (AttrValueEl.toXml o.rt)),
-     wrapEl "TYPE".toList [textEl "SPEC-OBJECT-TYPE-REF".toList (sotIdent o.rt).render]]
+    [wrapEl (tg "VALUES") (o.std.map (StdValueEl.toXml (.stdAttr o.rt)) ++ o.attrs.map (AttrValueEl.toXml o.rt)),
+     wrapEl (tg "TYPE") [textEl (tg "SPEC-OBJECT-TYPE-REF") (sotIdent o.rt).render]]
 
 /-! ## the specification -/
 
 def HierEl.toXml (ts : Str) (h : HierEl) : Xml :=
-  .el "SPEC-HIERARCHY".toList [(sIDENTIFIER, (Ident.hier h.uuid).render), (sLASTCHANGE, ts)] none
-    [wrapEl "OBJECT".toList [textEl "SPEC-OBJECT-REF".toList (Ident.obj h.uuid).render]]
+  .el (tg "SPEC-HIERARCHY") [(sIDENTIFIER, (Ident.hier h.uuid).render), (sLASTCHANGE, ts)] none
+    [wrapEl (tg "OBJECT") [textEl (tg "SPEC-OBJECT-REF") (Ident.obj h.uuid).render]]
 
 def SpecificationEl.toXml (ts : Str) (s : SpecificationEl) : Xml :=
-  .el "SPECIFICATION".toList
+  .el (tg "SPECIFICATION")
     ([(sIDENTIFIER, (Ident.obj s.uuid).render), (sLASTCHANGE, ts)] ++ optAttr sLONGNAME s.longName ++ optAttr sDESC s.desc)
     none
-    [wrapEl "TYPE".toList [textEl "SPECIFICATION-TYPE-REF".toList (stIdent s.mt).render],
-     wrapEl "VALUES".toList (s.values.map (StdValueEl.toXml (.stdSpecAttr s.mt))),
-     wrapEl "CHILDREN".toList (s.children.map (HierEl.toXml ts))]
+    [wrapEl (tg "TYPE") [textEl (tg "SPECIFICATION-TYPE-REF") (stIdent s.mt).render],
+     wrapEl (tg "VALUES") (s.values.map (StdValueEl.toXml (.stdSpecAttr s.mt))),
+     wrapEl (tg "CHILDREN") (s.children.map (HierEl.toXml ts))]
 
 /-! ## `_build_content`, `export_module` -/
 
@@ -247,19 +250,37 @@ def schemaLocation : Str :=
 
 /-- `REQ-IF-CONTENT` with its six sections, in the order they are appended -/
 def Doc.contentXml (ts : Str) (d : Doc) : Xml :=
-  wrapEl "REQ-IF-CONTENT".toList
-    [wrapEl "DATATYPES".toList (d.datatypes.map (DatatypeEl.toXml ts)),
-     wrapEl "SPEC-TYPES".toList (d.specTypes.map (SpecTypeEl.toXml ts) ++ [d.specificationType.toXml ts]),
-     wrapEl "SPEC-OBJECTS".toList (d.specObjects.map (SpecObjectEl.toXml ts)),
-     wrapEl "SPEC-RELATIONS".toList [],
-     wrapEl "SPECIFICATIONS".toList [d.specification.toXml ts],
-     wrapEl "SPEC-RELATION-GROUPS".toList []]
+  wrapEl (tg "REQ-IF-CONTENT")
+    [wrapEl (tg "DATATYPES") (d.datatypes.map (DatatypeEl.toXml ts)),
+     wrapEl (tg "SPEC-TYPES") (d.specTypes.map (SpecTypeEl.toXml ts) ++ [d.specificationType.toXml ts]),
+     wrapEl (tg "SPEC-OBJECTS") (d.specObjects.map (SpecObjectEl.toXml ts)),
+     wrapEl (tg "SPEC-RELATIONS") [],
+     wrapEl (tg "SPECIFICATIONS") [d.specification.toXml ts],
+     wrapEl (tg "SPEC-RELATION-GROUPS") []]
 
 /-- the tree `etree.ElementTree(data).write(...)` serialises; `LAST-CHANGE` everywhere is the header's
 creation time (`_build_header` returns it as `timestamp`) -/
 def Doc.toXml (h : HeaderEl) (d : Doc) : Xml :=
-  .el "REQ-IF".toList [("xsi:schemaLocation".toList, schemaLocation)] none
-    [h.toXml d.headerUuid, wrapEl "CORE-CONTENT".toList [d.contentXml h.creationTime]]
+  .el (tg "REQ-IF") [(tg "xsi:schemaLocation", schemaLocation)] none
+    [h.toXml d.headerUuid, wrapEl (tg "CORE-CONTENT") [d.contentXml h.creationTime]]
+
+/-! ## what "every element that must carry an identifier has one" means -/
+
+/-- tags of the ReqIF elements that are `Identifiable` (or the header): the fixed ones, and the
+`DATATYPE-DEFINITION-<T>` / `ATTRIBUTE-DEFINITION-<T>` families (not their `-REF` counterparts) -/
+def needsId (tag : Str) : Bool :=
+  [(tg "REQ-IF-HEADER"), (tg "ENUM-VALUE"), (tg "SPEC-OBJECT-TYPE"), (tg "SPECIFICATION-TYPE"), (tg "SPEC-OBJECT"),
+   (tg "SPECIFICATION"), (tg "SPEC-HIERARCHY"), (tg "SPEC-RELATION"), (tg "RELATION-GROUP")].contains tag
+  || (((tg "DATATYPE-DEFINITION-").isPrefixOf tag || (tg "ATTRIBUTE-DEFINITION-").isPrefixOf tag) && !endsWith tag sREF)
+
+/-- the local check at one element: an identifiable element has an `IDENTIFIER`; an element with an
+`IDENTIFIER` is the header or carries `LAST-CHANGE = ts`; only identifiable elements carry either -/
+def identCheck (ts : Str) (tag : Str) (attrs : List (Str × Str)) (_ : Option Str) (_ : List Xml) : Bool :=
+  if needsId tag then
+    (lookupAttr sIDENTIFIER attrs).isSome
+      && (tag == (tg "REQ-IF-HEADER") || lookupAttr sLASTCHANGE attrs == some ts)
+  else
+    (lookupAttr sIDENTIFIER attrs).isNone && (lookupAttr sLASTCHANGE attrs).isNone
 
 /-- `export_module` up to serialisation: header from the metadata, content from the module -/
 def exportXml (xhtml : Str → Option Str) (e : Env) (md : Metadata) (m : Module) : Except Err Xml :=
